@@ -1257,6 +1257,55 @@ fn run_space(ctx: &Ctx, sp: &Space, wall_cap_s: f64, out: &mut Sink) {
 // ------------------------------------------------------------------------------------------
 // malformed / odd patterns
 
+/// Every printable ASCII character (alone, doubled, and before / after a plain letter) as the
+/// value of a parameter in first and in second position: whatever `apply` chooses not to escape
+/// must be accepted, whole, by the URI parser and come back unchanged.
+fn run_ascii_values(ctx: &Ctx, out: &mut Sink) {
+    let t0 = Instant::now();
+    let pats: Vec<Pat> = [Spec::new(None, true, vec![par("x")]), Spec::new(None, true, vec![lit("a"), par("x")]), Spec::new(None, true, vec![par("x"), lit("a")]), Spec::new(Some("swim"), false, vec![lit("a"), par("x")])]
+        .iter()
+        .filter_map(|sp| make_pat(sp, &[]))
+        .collect();
+    let mut evals = 0u64;
+    let mut calls = 0u64;
+    let mut failing = 0u64;
+    for c in 0x20u8..0x7f {
+        let ch = c as char;
+        for v in [format!("{}", ch), format!("{}{}", ch, ch), format!("a{}", ch), format!("{}a", ch), format!("a{}b", ch)] {
+            for p in &pats {
+                let mut m = PMap::new();
+                m.insert("x".to_string(), v.clone());
+                let rt = roundtrip(p, &m);
+                evals += 1;
+                calls += rt.calls;
+                if let Some(f) = rt.fail {
+                    failing += 1;
+                    let sig = signature(&f, Some(&format!("param_value_char({:?})", ch)));
+                    out.push(Collected {
+                        sig,
+                        leg: "ascii_values".to_string(),
+                        detail: json!({"what": f.what, "example": {"pattern": p.spec.text, "map": m},
+                                       "replay": {"case": "roundtrip", "pattern": p.spec.to_json(), "map": m}}),
+                    });
+                }
+            }
+        }
+    }
+    ctx.add_leg(Leg {
+        name: "ascii_values".into(),
+        engine: "E4".into(),
+        states: evals,
+        transitions: calls,
+        evaluations: evals,
+        distinct_nontrivial: evals,
+        rule: "every printable ASCII character in five placements as a parameter value, four one/two segment patterns".into(),
+        samples: vec![],
+        exhaustive: true,
+        bounds: json!({"characters": "0x20..0x7e", "placements": ["c", "cc", "ac", "ca", "acb"], "patterns": pats.iter().map(|p| p.spec.text.clone()).collect::<Vec<_>>(), "failing_cases": failing}),
+        wall_s: t0.elapsed().as_secs_f64(),
+    });
+}
+
 fn run_malformed(ctx: &Ctx, out: &mut Sink) {
     let t0 = Instant::now();
     let leg = "malformed";
@@ -1490,6 +1539,7 @@ fn main() {
     }
     let mut out = Sink::default();
     run_malformed(&ctx, &mut out);
+    run_ascii_values(&ctx, &mut out);
     for sp in &spaces {
         let cap = if quick {
             40.0
